@@ -41,7 +41,7 @@ ERR = {1: "the AT proxy's journal is not one the routing model allows",
        4: "the AT journal minus the allowed extras differs from the bare journal",
        5: "caller-visible results differ between the proxy and the bare driver",
        6: "the routing table regenerated from the source does not have the modelled shape (cfg_ok)"}
-TAG = {"BEGIN": 1, "COMMIT": 2, "ROLLBACK": 3, "BIZ:EXEC": 10, "BIZ:QUERY": 11, "BIZ:PREPARE": 12, "BIZ:STMT_EXEC": 13,
+TAG = {"BEGIN": 1, "COMMIT": 2, "ROLLBACK": 3, "ISO": 4, "BIZ:EXEC": 10, "BIZ:QUERY": 11, "BIZ:PREPARE": 12, "BIZ:STMT_EXEC": 13,
        "BIZ:STMT_QUERY": 14, "IMG": 20, "SP": 21, "UNDOP": 22, "UNDO": 23, "TC:BranchRegister": 30, "TC:BranchReport": 31,
        "TC:GlobalLockQuery": 32}
 CONN = {"": 0, "c1": 1, "c2": 2}
@@ -56,12 +56,18 @@ def evs(step):
     return coq_list([ev_term(t) for t in (step or {}).get("toks") or []])
 
 
-def op_term(o, ok):
+def interpolates(params):
+    return (not params) or ("interpolateParams=true" in params)
+
+
+def op_term(o, ok, params=""):
     if o["k"] == "stmt":
         k = 'OStmt "%s" %s' % (o.get("sql_type", "unparsed"), coq_bool(bool(o.get("query"))))
     else:
         k = {"begin": "OBegin", "commit": "OCommit", "rollback": "ORollback"}[o["k"]]
-    return "{| o_k := %s; o_conn := %d; o_gtx := %s; o_ok := %s |}" % (k, CONN.get(o.get("conn", ""), 9), coq_bool(o["gtx"]), coq_bool(ok))
+    vp = o["k"] == "stmt" and bool(o.get("args")) and not interpolates(params) and not o.get("prepared")
+    return "{| o_k := %s; o_conn := %d; o_gtx := %s; o_ok := %s; o_vp := %s |}" % (
+        k, CONN.get(o.get("conn", ""), 9), coq_bool(o["gtx"]), coq_bool(ok), coq_bool(vp))
 
 
 RES = ("class", "err_class", "affected", "last_id", "columns", "col_types", "rows")
@@ -72,7 +78,9 @@ def same(a, b):
 
 
 def is_clean(c):
-    return not c["program"]["stream"].startswith("finding:")
+    # every stream is compared in full: operations inside a listed finding's predicate carry the outcome the
+    # finding describes (proxyrun checks it and keeps comparing everything else)
+    return True
 
 
 def case_term(c):
@@ -80,14 +88,17 @@ def case_term(c):
     xa = c.get("xa")
     n = len(c["ops"])
     full = all(m is None or len(m["steps"]) == n for m in (c["bare"], c["at"], xa))
+    params = c["program"].get("params", "")
     for i, o in enumerate(c["ops"] if full else []):
+        if o.get("expect"):
+            continue   # inside a listed finding's predicate: the oracle checks the described outcome; the model is silent
         b, a = c["bare"]["steps"][i], c["at"]["steps"][i]
         x = xa["steps"][i] if xa else None
         sm = same(a, b) and (x is None or same(x, b))
         steps.append("{| ps_op := %s; ps_at := %s; ps_bare := %s; ps_xa := %s; ps_same := %s |}" % (
-            op_term(o, b["class"] == "ok"), evs(a), evs(b), evs(x), coq_bool(sm)))
+            op_term(o, b["class"] == "ok", params), evs(a), evs(b), evs(x), coq_bool(sm)))
     if not full:   # a run stopped early: an impossible step makes every comparison fail
-        steps = ['{| ps_op := {| o_k := OBegin; o_conn := 0; o_gtx := false; o_ok := true |}; ps_at := []; ps_bare := []; '
+        steps = ['{| ps_op := {| o_k := OBegin; o_conn := 0; o_gtx := false; o_ok := true; o_vp := false |}; ps_at := []; ps_bare := []; '
                  'ps_xa := []; ps_same := false |}']
     return "{| pc_xa := %s; pc_clean := %s; pc_steps := %s |}" % (coq_bool(xa is not None), coq_bool(is_clean(c)), coq_list(steps))
 
@@ -110,24 +121,23 @@ def run_programs(chk, programs):
 
 
 def sizes(tier):
-    return (150, 150, 60, 6) if tier == "quick" else (9000, 9000, 3000, 100)
+    return (120, 200, 40, 40, 5) if tier == "quick" else (6000, 9000, 2000, 2000, 100)
 
 
 def run(chk, only=None):
-    nout, nin, nmal, nfind = sizes(chk.tier)
+    nout, nin, nmal, nxa, nfind = sizes(chk.tier)
     vlib.run_xlate("atdispatch", "AtDispatch.v")
     pr = vlib.proof_step(chk, PROP_FILE, REQ)
     ok_cases, out_cases = vlib.coq_make(["Proxy/ProxyCases.vo"])
     if only is None:
         data, secs = vlib.run_harness("proxyrun", chk.tmp("proxyrun.json"), timeout=1500, seed=chk.seed,
-                                      nout=nout, nin=nin, nmal=nmal, nfind=nfind)
+                                      nout=nout, nin=nin, nmal=nmal, nxa=nxa, nfind=nfind)
         cases = data["cases"]
     else:
         cases, secs = run_programs(chk, only)
     findings = vlib.known_findings("C16")
     preds = {f["pred"] for f in findings}
     clean = [c for c in cases if is_clean(c)]
-    fstream = [c for c in cases if not is_clean(c)]
     # ---- direct oracle on the clean streams (the property's own statement on the real runs)
     seen = set()
     for c in clean:
@@ -152,22 +162,31 @@ def run(chk, only=None):
         diag = open(os.path.join(vlib.COQ, "Gen", "AtDispatch.v")).read()[-2500:]
         chk.violation("a proof obligation of C16 no longer checks on the regenerated routing table (cfg_ok gen_cfg / C16_outside / C16_extra)",
                       {"theorem": PROP_FILE, "coq_output": (pr["out"] if not pr["ok"] else out_cases)[-1500:], "regenerated_table": diag}, False)
-    # ---- findings: committed replays must still fail; generated variants outside the listed predicates are violations
+    # ---- findings: an operation inside a listed predicate must show the DESCRIBED outcome (checked by the oracle
+    # above: anything else in the region is a violation); the committed replays must still show it
+    observed = {}
+    for c in cases:
+        for pred in c.get("known") or []:
+            observed[pred] = observed.get(pred, 0) + 1
     if only is None:
         for f in findings:
             rr, _ = run_programs(chk, json.load(open(os.path.join(vlib.VERIF, f["replay"])))["programs"])
-            if any(r["oracle"] for r in rr):
-                chk.known("id=%s pred=%s :: %s" % (f.get("id"), f["pred"], f["what"]))
+            bad = [r for r in rr if r["oracle"]]
+            if bad and not chk.violations:
+                chk.violation("the committed replay of finding %s no longer shows the described outcome: %s" % (f.get("id"), bad[0]["oracle"][0][:300]),
+                              slim(bad[0]), True)
+            elif any(f["pred"] in (r.get("known") or []) for r in rr):
+                observed[f["pred"]] = observed.get(f["pred"], 0) + 1
             else:
                 print("STALE-FINDING: property=C16 id=%s no longer reproduces" % f.get("id"))
                 chk.notes.append("stale finding " + str(f.get("id")))
-    for c in fstream:
-        pred = c["program"]["stream"].split(":", 1)[1]
-        if c["oracle"] and pred not in preds:
-            chk.violation("C16 fails on the real code (%s): %s" % (pred, c["oracle"][0][:300]), slim(c), True)
-            break
-        if c["oracle"] and only is not None:
-            chk.known("pred=%s (replayed program inside a listed finding's predicate) :: %s" % (pred, c["oracle"][0][:200]))
+    for pred, n in sorted(observed.items()):
+        f = [x for x in findings if x["pred"] == pred]
+        if f:
+            chk.known("id=%s pred=%s (%d programs, described outcome observed) :: %s" % (f[0].get("id"), pred, n, f[0]["what"]))
+        elif not chk.violations:
+            c = [c for c in cases if pred in (c.get("known") or [])][0]
+            chk.violation("operations fail inside the predicate %s, which is not a listed finding" % pred, slim(c), True)
     nontriv = [c for c in clean if any(o["gtx"] for o in c["ops"]) or len(c["ops"]) >= 3]
     dist = {}
     for c in cases:
@@ -193,7 +212,7 @@ def run(chk, only=None):
         "traces_validated_against_impl": len(cases) - len(mism),
         "operations_compared": nops,
         "oracle_failures_clean_stream": sum(1 for c in clean if c["oracle"]),
-        "finding_stream_cases": len(fstream),
+        "finding_region_programs": sum(observed.values()),
         "input_distribution": dist,
         "harness_seconds": round(secs, 2),
         "samples": [slim(c) for c in nontriv[7:9]],
